@@ -38,6 +38,8 @@ func (pass *AddFields) processObject(_ *Visitor, _ *ast.Schema, object ast.Objec
 			continue
 		}
 
+		// every matching object gets its own copy of the configured field
+		field = field.DeepCopy()
 		field.AddToPassesTrail("AddFields[created]")
 
 		object.Type.Struct.Fields = append(object.Type.Struct.Fields, field)
